@@ -370,11 +370,11 @@ func c04r2(c *core.Ctx) {
 				}
 				return true
 			})
-			if deferredList != "" {
-				// the deferred loop: cleans every element of the list and clears its flag
-				core.InspectNoLits(f.Body, func(n ast.Node) bool {
+			// the deferred loop over a list in function fn: cleans every element of the list and clears its flag
+			deferredLoop := func(fn *core.Func, list string) (cl, clr bool, pos token.Pos) {
+				core.InspectNoLits(fn.Body, func(n ast.Node) bool {
 					rs, ok := n.(*ast.RangeStmt)
-					if !ok || m.ExprString(rs.X) != deferredList || rs.Value == nil {
+					if !ok || m.ExprString(rs.X) != list || rs.Value == nil {
 						return true
 					}
 					v := m.ExprString(rs.Value)
@@ -383,14 +383,14 @@ func c04r2(c *core.Ctx) {
 						case *ast.CallExpr:
 							if len(x.Args) == 1 && aboutEnt(x.Args[0], v) {
 								if k, cal, _ := m.Callee(x); k == core.CallStatic && cal.Sig != nil && cal.Sig.Results().Len() == 0 && len(c.Eff.Stores(cal)) > 0 {
-									cleaned = true
-									cleanupAfter = x.Pos()
+									cl = true
+									pos = x.Pos()
 								}
 							}
 						case *ast.AssignStmt:
 							if len(x.Lhs) == 1 {
 								if ix2, ok := ast.Unparen(x.Lhs[0]).(*ast.IndexExpr); ok && fieldKeyOf(m, ix2.X) == "storage.isTarget" && aboutEnt(ix2.Index, v) {
-									cleared = true
+									clr = true
 								}
 							}
 						}
@@ -398,6 +398,60 @@ func c04r2(c *core.Ctx) {
 					})
 					return true
 				})
+				return
+			}
+			if deferredList != "" {
+				if cl, clr, pos := deferredLoop(f, deferredList); cl {
+					cleaned, cleanupAfter = true, pos
+					cleared = cleared || clr
+				}
+				// the list may be a parameter that the function hands back: then every caller owes the deferred loop over
+				// the variable that receives it
+				if !cleaned && f.Sig != nil {
+					pidx := -1
+					for i := 0; i < f.Sig.Params().Len(); i++ {
+						if f.Sig.Params().At(i).Name() == deferredList {
+							pidx = i
+						}
+					}
+					returned := false
+					core.InspectNoLits(f.Body, func(n ast.Node) bool {
+						if rs, ok := n.(*ast.ReturnStmt); ok {
+							for _, r := range rs.Results {
+								if m.RawString(r) == deferredList {
+									returned = true
+								}
+							}
+						}
+						return true
+					})
+					if pidx >= 0 && returned {
+						sites, all := 0, true
+						for _, cs := range m.CallSites() {
+							if cs.Callee != f {
+								continue
+							}
+							sites++
+							recv := ""
+							core.InspectNoLits(cs.Caller.Body, func(n ast.Node) bool {
+								if as, ok := n.(*ast.AssignStmt); ok && len(as.Rhs) == 1 && ast.Unparen(as.Rhs[0]) == ast.Expr(cs.Call) && len(as.Lhs) >= 1 {
+									recv = m.ExprString(as.Lhs[0])
+								}
+								return true
+							})
+							cl, clr, _ := false, false, token.NoPos
+							if recv != "" {
+								cl, clr, _ = deferredLoop(cs.Caller, recv)
+							}
+							if !cl || !clr {
+								all = false
+							}
+						}
+						if sites > 0 && all {
+							cleaned, cleared, cleanupAfter = true, true, rc.End()
+						}
+					}
+				}
 			}
 			switch {
 			case !tested:
